@@ -1,7 +1,7 @@
 import StrandModel.Lemmas.RngLemmas
 import StrandModel.Model.GenShuffle
 import StrandModel.Props.C02
-import StrandModel.Props.C03
+import StrandModel.Props.C03Core
 import StrandModel.Props.C15
 import StrandModel.Model.Threshold
 /-
